@@ -34,7 +34,18 @@ type RLScenario struct {
 	SlowAt  int // item whose delivery dwells in the observer for SlowUs (0 = none)
 	SlowUs  int
 	Streams int // ulule only: number of streams sharing ONE limiter, emitting concurrently (1 = a single stream)
+	Names   int // how the keys are spelled (rlKeyNames): 0 = k0 k1 k2; 1..3 = keys 0 and 1 collide under a common 32-bit string hash
 }
+
+// rlKeyNames: distinct keys stay distinct for a limiter whatever it derives from them; the pairs collide under FNV-1a 32, FNV-1 32 and Adler-32
+var rlKeyNames = [][]string{
+	{"k0", "k1", "k2"},
+	{"user-129599", "user-732382", "user-2"},
+	{"user-549599", "user-712382", "user-2"},
+	{"user-120", "user-201", "user-2"},
+}
+
+func (sc RLScenario) keyName(k int) string { return rlKeyNames[sc.Names%len(rlKeyNames)][k] }
 
 func GenRL(r *rand.Rand) RLScenario {
 	sc := RLScenario{Limiter: []string{"native", "ulule"}[r.Intn(2)], Window: 1000 * (5 + r.Intn(16)), Quota: 1 + r.Intn(3), End: []string{"C", "C", "C", "E"}[r.Intn(4)], Async: r.Intn(2) == 0}
@@ -68,6 +79,9 @@ func GenRL(r *rand.Rand) RLScenario {
 		}
 	} else {
 		sc.Streams = 1
+	}
+	if nkeys >= 2 {
+		sc.Names = r.Intn(len(rlKeyNames))
 	}
 	return sc
 }
@@ -127,7 +141,7 @@ func RunRL(lg *rec.Log, sc RLScenario, seed int64) []rec.Ev {
 				time.Sleep(time.Duration(it.Gap) * time.Microsecond)
 			}
 			lg.Add(rec.Ev{E: "emit", K: "N", O: it.Key, V: i + 1, U: us()})
-			dest.NextWithContext(dctx, rlItem{Key: fmt.Sprintf("k%d", it.Key), ID: i + 1})
+			dest.NextWithContext(dctx, rlItem{Key: sc.keyName(it.Key), ID: i + 1})
 		}
 		if sc.End == "C" {
 			lg.Add(rec.Ev{E: "emit", K: "C", V: 100000, O: 0, U: us()})
@@ -193,7 +207,7 @@ func runRLShared(lg *rec.Log, sc RLScenario, us func() int) []rec.Ev {
 			<-start
 			for i, it := range sc.Items {
 				if i%sc.Streams == k {
-					streams[k].dest.NextWithContext(streams[k].ctx, rlItem{Key: fmt.Sprintf("k%d", it.Key), ID: i + 1})
+					streams[k].dest.NextWithContext(streams[k].ctx, rlItem{Key: sc.keyName(it.Key), ID: i + 1})
 				}
 			}
 		}()
